@@ -22,6 +22,8 @@ Sub-directives (inside a block, each applies to the extracted item only):
     //%before "<tokens>"   ... right before it
     //%sub "<tokens>" => "<text>"  [# rule / reason]     token-sequence replacement (every match;
                            at least one match required).  `//%sub1` requires exactly one match.
+                           An anchor token `__ID1`, `__ID2`, .. matches any one identifier; the same
+                           name in <text> is replaced by the matched identifier (pattern sub).
     //%rename <newname>    rename the function (for trait-impl methods pulled into free fns)
     //%mutant <label> "<tokens>" => "<text>"   negative control: applied to the extracted text in
                            thorough mode only; Verus must then reject this function
@@ -208,9 +210,11 @@ def find_seq(toks, seq, lo=0, hi=None):
     L = len(seq)
     if L == 0:
         return out
-    first = seq[0]
+    def m(t, a):
+        # `__IDn` in an anchor matches any single identifier token (pattern subs, see apply_sub)
+        return t.text == a or (a.startswith("__ID") and t.kind == "ident")
     for i in range(lo, hi - L + 1):
-        if toks[i].text == first and all(toks[i + k].text == seq[k] for k in range(1, L)):
+        if all(m(toks[i + k], seq[k]) for k in range(L)):
             out.append(i)
     return out
 
@@ -445,6 +449,16 @@ def locate(src, path, features):
                     ok = False
             if ok:
                 scopes.append((mb + 1, me))
+        # ... and inside the transcriber of a single-rule `macro_rules! m { (..) => { ITEMS } }` at this level
+        # (items generated by a macro: the text verified is the macro's body, metavariables handled by subs)
+        if step_no == 0:
+            for q in range(lo, hi - 3):
+                if toks[q].text == "macro_rules" and toks[q + 1].text == "!" and toks[q + 3].text == "{":
+                    mend = match_close(toks, q + 3)
+                    for z in range(q + 4, mend - 2):
+                        if toks[z].text == "=" and toks[z + 1].text == ">" and toks[z + 2].text == "{":
+                            scopes.append((z + 3, match_close(toks, z + 2)))
+                            break
         for (slo, shi) in scopes:
             for (ki, fi, bi, ei) in find_blocks(src, kw, features, slo, shi):
                 cfg_ok = True
@@ -931,7 +945,11 @@ def extract_item(item, meta, mutant=None, twin=False):
             if h <= last_end:
                 continue
             s, e = ctoks[h].start, ctoks[h + len(anchor) - 1].end
-            ed.replace(s, e, text, tag)
+            txt = text
+            for q, a in enumerate(anchor):
+                if a.startswith("__ID"):
+                    txt = txt.replace(a, ctoks[h + q].text)
+            ed.replace(s, e, txt, tag)
             fired.add(tag)
             last_end = h + len(anchor) - 1
 
